@@ -290,9 +290,9 @@ func solveOneCtx(parent context.Context, file string, cfg SolveCfg) *SolveResult
 				}
 				// thorough tier: the other solvers get a bounded window (three times the winner's time, at least
 				// 10 s) to confirm or contradict the verdict
-				w := 3 * time.Since(t0)
-				if w < 10*time.Second {
-					w = 10 * time.Second
+				w := 2 * time.Since(t0)
+				if w < 3*time.Second {
+					w = 3 * time.Second
 				}
 				crossDone = time.After(w)
 			} else if best.status != a.status {
